@@ -269,7 +269,11 @@ impl DrawExecutor {
     fn set_pixel(&mut self, x: i32, y: i32, line_color: u8) {
         #[cfg(icy_engine_verif)]
         crate::verif::tick(1);
-        let offset = (y * self.get_resolution().width + x) as usize;
+        let res = self.get_resolution();
+        if x < 0 || y < 0 || x >= res.width || y >= res.height {
+            return;
+        }
+        let offset = (y * res.width + x) as usize;
         if offset >= self.screen.len() {
             return;
         }
@@ -277,8 +281,12 @@ impl DrawExecutor {
     }
 
     fn get_pixel(&mut self, x: i32, y: i32) -> u8 {
-        let offset = (y * self.get_resolution().width + x) as usize;
-        self.screen[offset]
+        let res = self.get_resolution();
+        if x < 0 || y < 0 || x >= res.width || y >= res.height {
+            return 0;
+        }
+        let offset = (y * res.width + x) as usize;
+        self.screen.get(offset).copied().unwrap_or(0)
     }
 
     fn fill_pixel(&mut self, x: i32, y: i32) {
